@@ -712,6 +712,12 @@ class ParserField:
                 if dep in alias_map:
                     dep = alias_map[dep]
                 if dep not in fields:
+                    # a field taken over from a base class has its dependencies resolved to output names already
+                    for key, field in fields.items():
+                        if field.name == dep:
+                            dep = key
+                            break
+                if dep not in fields:
                     # continue
                     # if dependencies is generated from unbound, it is considered inaccurate
                     if not self.property:
